@@ -319,8 +319,8 @@ def run(tier, seed, log, model_runs=True, enlarged=False):
     sizes = Counter()
     try:
         nbig = 1 if tier == "quick" else 6
-        for i in range(-1, ndocs + nbig):
-            d = simpledocs.all_strings_doc() if i < 0 else simpledocs.simple_doc(rng) if i < ndocs else simpledocs.big_doc(rng, rng.choice([60, 150, 400]) if tier != "quick" else 150)
+        for i in range(-2, ndocs + nbig):
+            d = simpledocs.dense_doc() if i == -2 else simpledocs.all_strings_doc() if i < 0 else simpledocs.simple_doc(rng) if i < ndocs else simpledocs.big_doc(rng, rng.choice([60, 150, 400]) if tier != "quick" else 150)
             sizes[len(d.get_records()) + sum(len(b.get_records()) for b in d.bundles)] += 1
             try:
                 n, fails, lw = run_doc(d, scratch, i)
